@@ -140,10 +140,58 @@ static AIToolbox::Vector runPE(const Mod & mod, const char * rep, const Gen & G,
 }
 
 template <class Mod>
-static AIToolbox::Matrix2D runPI(const Mod & mod, const char * rep, const Gen & G, unsigned h, double tol) {
+static AIToolbox::Matrix2D runPIUnguarded(const Mod & mod, const char * rep, const Gen & G, unsigned h, double tol) {
     M::PolicyIteration pi(h, tol);
     auto q = pi(mod);
     Line l = head("pi", false, rep, G); l << h << tol << "|"; putMat(l, q); l.emit();
+    return q;
+}
+
+// PolicyIteration has no iteration bound.  On inputs where it may not return (see fixes/C01-3) the call runs in a forked child with a
+// wall-clock limit, so that non-termination becomes a protocol line (`| timeout`, a failing input) instead of a killed harness.
+template <class Mod>
+static bool runPIGuarded(const Mod & mod, const char * rep, const Gen & G, unsigned h, double tol, int limitMs, AIToolbox::Matrix2D & out) {
+    int fd[2]; if (pipe(fd) != 0) { out = runPIUnguarded(mod, rep, G, h, tol); return true; }
+    std::fflush(stdout);
+    const pid_t pid = fork();
+    if (pid < 0) { close(fd[0]); close(fd[1]); out = runPIUnguarded(mod, rep, G, h, tol); return true; }
+    const size_t n = G.S * G.A;
+    if (pid == 0) {
+        close(fd[0]);
+        M::PolicyIteration pi(h, tol);
+        auto q = pi(mod);
+        std::vector<double> buf(n);
+        for (size_t s = 0; s < G.S; ++s) for (size_t a = 0; a < G.A; ++a) buf[s * G.A + a] = q(s, a);
+        ssize_t w = write(fd[1], buf.data(), n * sizeof(double)); (void)w;
+        _exit(0);
+    }
+    close(fd[1]);
+    std::vector<double> buf(n); size_t got = 0; bool ok = true;
+    while (got < n * sizeof(double)) {
+        struct pollfd pf{fd[0], POLLIN, 0};
+        int r = poll(&pf, 1, limitMs);
+        if (r <= 0) { ok = false; break; }
+        ssize_t k = read(fd[0], (char *)buf.data() + got, n * sizeof(double) - got);
+        if (k <= 0) { ok = false; break; }
+        got += (size_t)k;
+    }
+    close(fd[0]);
+    if (!ok) kill(pid, SIGKILL);
+    int st; waitpid(pid, &st, 0);
+    Line l = head("pi", false, rep, G); l << h << tol << "|";
+    if (!ok) { l << "timeout"; l.emit(); std::printf("#stat pi_timeout 1\n"); return false; }
+    out.resize(G.S, G.A);
+    for (size_t s = 0; s < G.S; ++s) for (size_t a = 0; a < G.A; ++a) out(s, a) = buf[s * G.A + a];
+    putMat(l, out); l.emit();
+    return true;
+}
+
+// every PolicyIteration call of the harness goes through the guard (10 s unless stated): `piOK` tells whether it returned
+static bool piOK = true;
+template <class Mod>
+static AIToolbox::Matrix2D runPI(const Mod & mod, const char * rep, const Gen & G, unsigned h, double tol) {
+    AIToolbox::Matrix2D q; piOK = runPIGuarded(mod, rep, G, h, tol, 10000, q);
+    if (!piOK) { q.resize(G.S, G.A); q.setZero(); }
     return q;
 }
 
@@ -258,8 +306,9 @@ static void runAll(Rng & rng, const Gen & G, const std::string & tier, bool forc
             auto [var, vf, q] = vi(mod);
             { Line l = head("vi", false, rep, G); l << 100000u << tolVI << false << "|" << var; putVec(l, vf.values); l.nats(vf.actions); putMat(l, q); l.emit(); }
             auto qp = runPI(mod, rep, G, 100000, tolPI);
+            const bool piReturned = piOK;
             auto lr = runLP(mod, rep, G);
-            if (lr.ok) {
+            if (lr.ok && piReturned) {
                 Line l = head("agree", false, rep, G); l << tolVI << tolPI << lr.prec << "|";
                 putVec(l, vf.values); putActs(l, vf.actions); putMat(l, qp); putVec(l, lr.vf.values); putMat(l, lr.q); l.emit();
                 vlp.push_back(lr.vf.values);
@@ -290,8 +339,9 @@ static void runAll(Rng & rng, const Gen & G, const std::string & tier, bool forc
         auto [var, vf, q] = vi(th);
         { Line l = head("vi", false, "thompson", G2); l << 100000u << tolVI << false << "|" << var; putVec(l, vf.values); l.nats(vf.actions); putMat(l, q); l.emit(); }
         auto qp = runPI(th, "thompson", G2, 100000, tolPI);
+        const bool piReturned = piOK;
         auto lr = runLP(th, "thompson", G2);
-        if (lr.ok) { Line l = head("agree", false, "thompson", G2); l << tolVI << tolPI << lr.prec << "|";
+        if (lr.ok && piReturned) { Line l = head("agree", false, "thompson", G2); l << tolVI << tolPI << lr.prec << "|";
             putVec(l, vf.values); putActs(l, vf.actions); putMat(l, qp); putVec(l, lr.vf.values); putMat(l, lr.q); l.emit(); }
         std::printf("#stat thompson 1\n");
     }
@@ -313,6 +363,15 @@ static void runReuse(Rng & rng, const Mod & mod, const char * rep, const Gen & G
     M::Model other(S + 1 + rng.below(2), A, G.g);                 // a model of another size solved by the same object in between
     unsigned h1 = (unsigned)rng.range(1, 5), h2 = (unsigned)rng.range(0, 5);
     M::ValueIteration vi(h1, 0.0);
+    // the three-argument constructors (start vector given at construction)
+    {
+        Warm w0; w0.on = true; w0.vf.values.resize(S); w0.vf.actions.assign(S, 0);
+        for (size_t s = 0; s < S; ++s) w0.vf.values[s] = 0.25 * (double)rng.range(-8, 8);
+        M::ValueIteration vi3(h1, 0.0, w0.vf);
+        auto [var, vf, q] = vi3(mod);
+        Line l = head("vi", G.dyadic, rep, G); l << h1 << 0.0 << true << (size_t)S; putVec(l, w0.vf.values); l.nats(w0.vf.actions);
+        l << "|" << var; putVec(l, vf.values); l.nats(vf.actions); putMat(l, q); l.emit();
+    }
     auto emitVI = [&](unsigned h, double tol, const Warm & w, const std::tuple<double, M::ValueFunction, M::QFunction> & out) {
         const auto & [var, vf, q] = out;
         Line l = head("vi", G.dyadic, rep, G); l << h << tol << w.on;
@@ -354,6 +413,11 @@ static void runReuse(Rng & rng, const Mod & mod, const char * rep, const Gen & G
         if (warm) { l << (size_t)warm->size(); putVec(l, *warm); }
         putMat(l, pol); l << "|" << var; putVec(l, v); putMat(l, q); l.emit();
     };
+    {
+        AIToolbox::Vector w0(S); for (size_t s = 0; s < S; ++s) w0[s] = 0.25 * (double)rng.range(-8, 8);
+        M::PolicyEvaluation<Mod> pe4(mod, hp, 0.0, w0);
+        emitPE(hp, &w0, pe4(policy));
+    }
     auto o1 = pe(policy); emitPE(hp, nullptr, o1);
     AIToolbox::Vector carried = std::get<1>(o1);
     pe.setValues(carried);                                          // warm start from the previous result
@@ -403,6 +467,9 @@ static void runGreedyTable(Rng & rng, int fixed) {
     auto m = p.getPolicy();
     Line l; l << "C01" << "gp" << S << A; putMat(l, q); l << "|"; putMat(l, m);
     l.emit();
+    // bellmanOperator(q) on the same table: the out-of-place form of the backup (first maximum per row)
+    auto vf = M::bellmanOperator(q);
+    Line l2; l2 << "C01" << "bop" << S << A; putMat(l2, q); l2 << "|"; l2 << (size_t)vf.values.size(); putVec(l2, vf.values); l2.nats(vf.actions); l2.emit();
 }
 
 // ---- (8) large reward scales with near-tied optimal actions -----------------------------------------------------------------
@@ -451,45 +518,6 @@ static Gen genBig(Rng & rng, int fixed, int & tieStyle) {
     }
     std::printf("#stat big 1\n#stat big_vmag_e%d 1\n#stat big_tie%d 1\n#stat big_sign%d 1\n#stat big_S%zu 1\n", e, tieStyle, signStyle, G.S);
     return G;
-}
-
-// PolicyIteration has no iteration bound.  On inputs where it may not return (see fixes/C01-3) the call runs in a forked child with a
-// wall-clock limit, so that non-termination becomes a protocol line (`| timeout`, a failing input) instead of a killed harness.
-template <class Mod>
-static bool runPIGuarded(const Mod & mod, const char * rep, const Gen & G, unsigned h, double tol, int limitMs, AIToolbox::Matrix2D & out) {
-    int fd[2]; if (pipe(fd) != 0) { out = runPI(mod, rep, G, h, tol); return true; }
-    std::fflush(stdout);
-    const pid_t pid = fork();
-    if (pid < 0) { close(fd[0]); close(fd[1]); out = runPI(mod, rep, G, h, tol); return true; }
-    const size_t n = G.S * G.A;
-    if (pid == 0) {
-        close(fd[0]);
-        M::PolicyIteration pi(h, tol);
-        auto q = pi(mod);
-        std::vector<double> buf(n);
-        for (size_t s = 0; s < G.S; ++s) for (size_t a = 0; a < G.A; ++a) buf[s * G.A + a] = q(s, a);
-        ssize_t w = write(fd[1], buf.data(), n * sizeof(double)); (void)w;
-        _exit(0);
-    }
-    close(fd[1]);
-    std::vector<double> buf(n); size_t got = 0; bool ok = true;
-    while (got < n * sizeof(double)) {
-        struct pollfd pf{fd[0], POLLIN, 0};
-        int r = poll(&pf, 1, limitMs);
-        if (r <= 0) { ok = false; break; }
-        ssize_t k = read(fd[0], (char *)buf.data() + got, n * sizeof(double) - got);
-        if (k <= 0) { ok = false; break; }
-        got += (size_t)k;
-    }
-    close(fd[0]);
-    if (!ok) kill(pid, SIGKILL);
-    int st; waitpid(pid, &st, 0);
-    Line l = head("pi", false, rep, G); l << h << tol << "|";
-    if (!ok) { l << "timeout"; l.emit(); std::printf("#stat pi_timeout 1\n"); return false; }
-    out.resize(G.S, G.A);
-    for (size_t s = 0; s < G.S; ++s) for (size_t a = 0; a < G.A; ++a) out(s, a) = buf[s * G.A + a];
-    putMat(l, out); l.emit();
-    return true;
 }
 
 static void runBig(Rng & rng, int fixed) {
